@@ -19,7 +19,7 @@ Section Finish.
   Let rs := map to_r nix.
   Hypothesis Hcan : canonical V x.
   Hypothesis Hwf : nwf nix sh.
-  Hypothesis Harr : (n_arr nix <= 1)%nat.
+  Hypothesis Harr : arrs_ok nix.
   Variable m : list (nat * Z).
   Hypothesis Hm_nodup : NoDup m.
   Hypothesis Hm_mem : forall p a,
@@ -46,13 +46,13 @@ Section Finish.
     end.
   Proof.
     cbv zeta. rewrite (build_shape_eq nix sh false alen Hwf Halen). fold rs. change (out_shape_aux false rs) with (out_shape rs).
-    pose proof (sel_keys_nodup V x nix Hcan Hwf Harr m Hm_nodup Hm_mem) as Hknd.
-    pose proof (sel_keys_in_range V x nix Hwf Harr m Hm_mem) as Hkr. fold rs in Hkr.
+    pose proof (sel_keys_nodup V x nix Hcan Hwf m Hm_nodup Hm_mem) as Hknd.
+    pose proof (sel_keys_in_range V x nix Hwf m Hm_mem) as Hkr. fold rs in Hkr.
     destruct (out_shape rs) as [|d0 osh] eqn:Eos.
     - assert (Hknil : forall k, In k (map fst (sel_entries V x nix m)) -> k = []) by (intros k Hk; apply in_range_nil, Hkr, Hk).
       destruct (last_is_ellipsis ix).
       + destruct (result_den V x nix Hcan Hwf Harr m Hm_mem (sel_entries V x nix m) (Permutation_refl _)
-                    (nil_keys_sorted _ Hknil Hknd)) as [Hc Hden].
+                    (nil_keys_sorted _ Hknil Hknd)) as [Hc [Hden _]].
         fold rs in Hc, Hden. rewrite Eos in Hc, Hden.
         split; [reflexivity|]. split; [reflexivity|]. split; [exact Hc|exact Hden].
       + destruct (sel_entries V x nix m) as [|[k v] r] eqn:Ese.
@@ -66,14 +66,14 @@ Section Finish.
           assert (Hk : k = []) by (apply Hknil; left; reflexivity). subst k.
           apply (sel_spec V x nix Hcan Hwf Harr m Hm_mem); [fold rs; rewrite Eos; exact I|]. rewrite Ese. left. reflexivity.
     - unfold coo_make. destruct flag eqn:Ef.
-      + destruct (result_den V x nix Hcan Hwf Harr m Hm_mem _ (Permutation_refl _) (Hflag eq_refl)) as [Hc Hden].
+      + destruct (result_den V x nix Hcan Hwf Harr m Hm_mem _ (Permutation_refl _) (Hflag eq_refl)) as [Hc [Hden _]].
         fold rs in Hc, Hden. rewrite Eos in Hc, Hden.
         split; [reflexivity|]. split; [reflexivity|]. split; [exact Hc|exact Hden].
       + assert (Hss : StronglySorted lex_lt (map fst (sort_entries (sel_entries V x nix m)))).
         { apply (sort_sorted V (length (d0 :: osh))); [|assumption].
           apply Forall_forall. intros y Hy. apply (in_range_length (d0 :: osh) (fst y)).
           apply (Hkr (fst y)). apply in_map. exact Hy. }
-        destruct (result_den V x nix Hcan Hwf Harr m Hm_mem _ (sort_perm V _) Hss) as [Hc Hden].
+        destruct (result_den V x nix Hcan Hwf Harr m Hm_mem _ (sort_perm V _) Hss) as [Hc [Hden _]].
         fold rs in Hc, Hden. rewrite Eos in Hc, Hden.
         split; [reflexivity|]. split; [reflexivity|]. split; [exact Hc|exact Hden].
   Qed.
@@ -350,8 +350,14 @@ Section GetitemArr.
     assert (Hn1 : n_arr nix = 1%nat).
     { pose proof (n_arr_norm ex sh Hf) as H. fold nix in H. rewrite (expand_count_arr _ _ _ E) in H.
       unfold one_array in Hone. apply Z.eqb_eq in Hone. clear - H Hone. lia. }
-    assert (Harr : (n_arr nix <= 1)%nat) by (rewrite Hn1; constructor).
     destruct (one_arr_split nix Hn1) as [pre [l [post [Enix [Hpre Hpost]]]]].
+    assert (Harr : arrs_ok nix).
+    { assert (Hone' : forall l', In (NArr l') nix -> l' = l).
+      { intros l' Hin. rewrite Enix in Hin. apply in_app_iff in Hin. destruct Hin as [Hin|[Hin|Hin]].
+        - exfalso. unfold no_arr in Hpre. rewrite forallb_forall in Hpre. specialize (Hpre _ Hin). discriminate.
+        - inversion Hin. reflexivity.
+        - exfalso. unfold no_arr in Hpost. rewrite forallb_forall in Hpost. specialize (Hpost _ Hin). discriminate. }
+      intros l1 l2 H1 H2. rewrite (Hone' l1 H1), (Hone' l2 H2). reflexivity. }
     rewrite Hr. cbn [bind]. rewrite Enix, (broadcast_one pre l post Hpre Hpost), <- Enix. cbn [bind].
     assert (Haf : all_full nix sh = false) by (rewrite Enix; apply all_full_arr).
     unfold getitem. fold sh. rewrite Hn. cbn [bind]. rewrite Haf.
